@@ -1020,9 +1020,20 @@ func (*AttributeExpr) IsSupportedValidationFormat(vf ValidationFormat) bool {
 // bases and references are only merged during Finalize. It is not a recursive
 // implementation.
 func walkAttribute(att *AttributeExpr, it func(name string, a *AttributeExpr) error) error {
+	return walkAttributeRecursive(att, it, make(map[DataType]struct{}))
+}
+
+// walkAttributeRecursive implements walkAttribute, seen records the user types
+// already visited so that types that extend or reference each other do not
+// cause an endless recursion.
+func walkAttributeRecursive(att *AttributeExpr, it func(name string, a *AttributeExpr) error, seen map[DataType]struct{}) error {
 	switch dt := att.Type.(type) {
 	case UserType:
-		if err := walkAttribute(dt.Attribute(), it); err != nil {
+		if _, ok := seen[dt]; ok {
+			return nil
+		}
+		seen[dt] = struct{}{}
+		if err := walkAttributeRecursive(dt.Attribute(), it, seen); err != nil {
 			return err
 		}
 	case *Object:
@@ -1033,12 +1044,12 @@ func walkAttribute(att *AttributeExpr, it func(name string, a *AttributeExpr) er
 		}
 	}
 	for _, b := range att.Bases {
-		if err := walkAttribute(&AttributeExpr{Type: b}, it); err != nil {
+		if err := walkAttributeRecursive(&AttributeExpr{Type: b}, it, seen); err != nil {
 			return err
 		}
 	}
 	for _, r := range att.References {
-		if err := walkAttribute(&AttributeExpr{Type: r}, it); err != nil {
+		if err := walkAttributeRecursive(&AttributeExpr{Type: r}, it, seen); err != nil {
 			return err
 		}
 	}
